@@ -1364,11 +1364,32 @@ func generate(repo string) ([]byte, []string, []string, error) {
 
 func main() {
 	repo := flag.String("repo", "", "repository root (contains storage/safeMap.go and storage/genericStack.go)")
-	out := flag.String("out", "", "Coq file to write ('-' = stdout)")
+	out := flag.String("out", "", "Coq file to write for SafeMap/GenericStack ('-' = stdout)")
+	outdir := flag.String("outdir", "", "directory for the field-mode files (CacheSkeleton_gen.v, WQSkeleton_gen.v); '-' = stdout")
 	flag.Parse()
-	if *repo == "" || *out == "" || flag.NArg() != 0 {
-		fmt.Fprintln(os.Stderr, "usage: lockskel -repo <dir> -out <file.v>")
+	if *repo == "" || (*out == "" && *outdir == "") || flag.NArg() != 0 {
+		fmt.Fprintln(os.Stderr, "usage: lockskel -repo <dir> [-out <file.v>] [-outdir <dir>]")
 		os.Exit(2)
+	}
+	if *outdir != "" {
+		for _, g := range fgroups {
+			text, summary, reasons, err := generateGroup(*repo, g)
+			if err != nil {
+				fmt.Fprintln(os.Stderr, "lockskel:", err)
+				os.Exit(1)
+			}
+			for _, r := range reasons {
+				fmt.Fprintln(os.Stderr, "lockskel:", r)
+			}
+			if *outdir == "-" {
+				os.Stdout.Write(text)
+				continue
+			}
+			writeIfChanged(filepath.Join(*outdir, g.outFile), text, summary)
+		}
+	}
+	if *out == "" {
+		return
 	}
 	text, summary, reasons, err := generate(*repo)
 	if err != nil {
@@ -1385,13 +1406,18 @@ func main() {
 		}
 		return
 	}
+	writeIfChanged(*out, text, summary)
+}
+
+// writeIfChanged keeps the file (and its mtime) when the content is the same, so that make does not rebuild
+func writeIfChanged(out string, text []byte, summary []string) {
 	state := "unchanged"
-	if old, err := os.ReadFile(*out); err != nil || !bytes.Equal(old, text) {
-		if err := os.MkdirAll(filepath.Dir(*out), 0o755); err != nil {
+	if old, err := os.ReadFile(out); err != nil || !bytes.Equal(old, text) {
+		if err := os.MkdirAll(filepath.Dir(out), 0o755); err != nil {
 			fmt.Fprintln(os.Stderr, "lockskel:", err)
 			os.Exit(1)
 		}
-		if err := os.WriteFile(*out, text, 0o644); err != nil {
+		if err := os.WriteFile(out, text, 0o644); err != nil {
 			fmt.Fprintln(os.Stderr, "lockskel:", err)
 			os.Exit(1)
 		}
@@ -1400,5 +1426,5 @@ func main() {
 	for _, s := range summary {
 		fmt.Println(s)
 	}
-	fmt.Printf("%s: %s\n", *out, state)
+	fmt.Printf("%s: %s\n", out, state)
 }
